@@ -14,6 +14,9 @@ def run(tier, seed):
     R = "markdown_it.ruler.Ruler."
     deductive(rep, "C10", [R + m for m in ("enable", "disable", "enableOnly", "at", "before", "after", "push", "__find__", "__compile__", "getRules")], "contracts.ruler",
               select=lambda q, ob, rel: ob.kind not in ("SAFE", "DEC"))
+    import contracts.rxrules as RXR
+    deductive(rep, "C10", [RXR.QH], "contracts.rxrules")
+    deductive(rep, "C10", ["markdown_it.rules_block.html_block.html_block"], "contracts.block")
     cfgs = ["commonmark", "js-default", "zero", "cm-heading", "cm-code", "cm+table+strike", "cm+defs"]
     lines_universe(rep, "vf.oracles2:c10_vocab", tier, "MarkdownIt.parse", "token types subset of the vocabulary of the enabled rules (html tokens only with options.html)", cfgs=cfgs)
     lines_universe(rep, "vf.oracles2:c10_conservative", tier, "MarkdownIt.parse/render", "table/strikethrough conservative without trigger characters; inline_definitions/store_labels only add definition tokens and labels (tokens, env, HTML)",
